@@ -1,6 +1,337 @@
-(* C18 - placeholder until Proofs/BaseNProofs.v is merged *)
-From Xeh Require Import Model.Prelude Model.BaseN.
+(* C18 - text encodings of binary data round-trip.
+   Bytes and characters are numbers; [b32_encode Rfc4648 / b32_decode Rfc4648] are the words
+   base32 / base32>, [Crockford] is base32hex / base32hex>, [b64_*] is base64 / base64>,
+   [z85_*] is zero85 / zero85>.  Round trips hold for EVERY byte list of EVERY length;
+   text with a character outside the alphabet decodes to None, which the decode words turn
+   into nil; the decode words never raise an error of their own; the encode words accept what
+   >bitstr accepts when it is a whole number of bytes, at any alignment. *)
+From Xeh Require Import Model.Prelude Model.Bits Model.Cell Model.Vm Model.BaseN Model.Words.
+From Xeh Require Import Proofs.BaseNKernel Proofs.BaseNProofs Proofs.WordRun Proofs.BaseNWords.
+Local Notation length := List.length.
 
-Theorem C18_z85_empty : z85_decode (z85_encode []) = Some [].
-Proof. reflexivity. Qed.
-Check C18_z85_empty : z85_decode (z85_encode []) = Some [].
+Definition is_bytes (d : list N) : Prop := Forall (fun x => (x < 256)%N) d.
+
+(* ---------- round trips, every byte string of every length ---------- *)
+Theorem C18_b32_round : forall d, is_bytes d -> b32_decode Rfc4648 (b32_encode Rfc4648 d) = Some d.
+Proof. exact (b32_round Rfc4648). Qed.
+Check C18_b32_round : forall d, is_bytes d -> b32_decode Rfc4648 (b32_encode Rfc4648 d) = Some d.
+
+Theorem C18_b32hex_round : forall d, is_bytes d -> b32_decode Crockford (b32_encode Crockford d) = Some d.
+Proof. exact (b32_round Crockford). Qed.
+Check C18_b32hex_round : forall d, is_bytes d -> b32_decode Crockford (b32_encode Crockford d) = Some d.
+
+Theorem C18_b64_round : forall d, is_bytes d -> b64_decode (b64_encode d) = Some d.
+Proof. exact b64_round. Qed.
+Check C18_b64_round : forall d, is_bytes d -> b64_decode (b64_encode d) = Some d.
+
+Theorem C18_z85_round : forall d, is_bytes d -> z85_decode (z85_encode d) = Some d.
+Proof. exact z85_round. Qed.
+Check C18_z85_round : forall d, is_bytes d -> z85_decode (z85_encode d) = Some d.
+
+(* ---------- what the encoders produce: the digits of each whole group ---------- *)
+(* the symbols of a whole group are the base-64 / base-32 / base-85 digits of its big-endian
+   value, most significant first, and whole groups are encoded independently of what follows *)
+Definition be24 (b0 b1 b2 : N) : N := ((b0 * 256 + b1) * 256 + b2)%N.
+Definition be40 (b0 b1 b2 b3 b4 : N) : N := ((((b0 * 256 + b1) * 256 + b2) * 256 + b3) * 256 + b4)%N.
+
+Theorem C18_b64_group_digits : forall b0 b1 b2, (b0 < 256 -> b1 < 256 -> b2 < 256 ->
+  let n := be24 b0 b1 b2 in
+  b64_encode [b0; b1; b2]
+  = map (nthN b64_alphabet) [ n / 262144; (n / 4096) mod 64; (n / 64) mod 64; n mod 64 ])%N.
+Proof. exact b64_group_digits. Qed.
+Check C18_b64_group_digits : forall b0 b1 b2, (b0 < 256 -> b1 < 256 -> b2 < 256 ->
+  let n := be24 b0 b1 b2 in
+  b64_encode [b0; b1; b2]
+  = map (nthN b64_alphabet) [ n / 262144; (n / 4096) mod 64; (n / 64) mod 64; n mod 64 ])%N.
+
+Theorem C18_b32_group_digits : forall a b0 b1 b2 b3 b4,
+  (b0 < 256 -> b1 < 256 -> b2 < 256 -> b3 < 256 -> b4 < 256 ->
+  let n := be40 b0 b1 b2 b3 b4 in
+  b32_encode a [b0; b1; b2; b3; b4]
+  = map (nthN (match a with Rfc4648 => rfc_alphabet | Crockford => crock_alphabet end))
+        [ n / 34359738368; (n / 1073741824) mod 32; (n / 33554432) mod 32; (n / 1048576) mod 32;
+          (n / 32768) mod 32; (n / 1024) mod 32; (n / 32) mod 32; n mod 32 ])%N.
+Proof. exact b32_group_digits. Qed.
+Check C18_b32_group_digits : forall a b0 b1 b2 b3 b4,
+  (b0 < 256 -> b1 < 256 -> b2 < 256 -> b3 < 256 -> b4 < 256 ->
+  let n := be40 b0 b1 b2 b3 b4 in
+  b32_encode a [b0; b1; b2; b3; b4]
+  = map (nthN (match a with Rfc4648 => rfc_alphabet | Crockford => crock_alphabet end))
+        [ n / 34359738368; (n / 1073741824) mod 32; (n / 33554432) mod 32; (n / 1048576) mod 32;
+          (n / 32768) mod 32; (n / 1024) mod 32; (n / 32) mod 32; n mod 32 ])%N.
+
+Theorem C18_z85_group_digits : forall b0 b1 b2 b3,
+  (let n := be32 b0 b1 b2 b3 in
+  z85_encode [b0; b1; b2; b3]
+  = map (nthN z85_letters)
+        [ (n / 52200625) mod 85; (n / 614125) mod 85; (n / 7225) mod 85; (n / 85) mod 85; n mod 85 ])%N.
+Proof. exact z85_group_digits. Qed.
+Check C18_z85_group_digits : forall b0 b1 b2 b3,
+  (let n := be32 b0 b1 b2 b3 in
+  z85_encode [b0; b1; b2; b3]
+  = map (nthN z85_letters)
+        [ (n / 52200625) mod 85; (n / 614125) mod 85; (n / 7225) mod 85; (n / 85) mod 85; n mod 85 ])%N.
+
+Theorem C18_encode_groups :
+  (forall a g d, length g = 5 -> b32_encode a (g ++ d) = (b32_encode a g ++ b32_encode a d)%list) /\
+  (forall g d, length g = 3 -> b64_encode (g ++ d) = (b64_encode g ++ b64_encode d)%list) /\
+  (forall g d, length g = 4 -> z85_encode (g ++ d) = (z85_encode g ++ z85_encode d)%list).
+Proof. exact (conj b32_encode_app (conj b64_encode_app z85_encode_app)). Qed.
+Check C18_encode_groups :
+  (forall a g d, length g = 5 -> b32_encode a (g ++ d) = (b32_encode a g ++ b32_encode a d)%list) /\
+  (forall g d, length g = 3 -> b64_encode (g ++ d) = (b64_encode g ++ b64_encode d)%list) /\
+  (forall g d, length g = 4 -> z85_encode (g ++ d) = (z85_encode g ++ z85_encode d)%list).
+
+(* ---------- invalid text is None ---------- *)
+(* the characters a base32 decoder accepts: the alphabet in either case; the padding
+   character '=' for RFC 4648; the aliases I, L, O for Crockford *)
+Definition b32_valid_char (a : b32alpha) (c : N) : Prop :=
+  In (to_upper c) (match a with Rfc4648 => rfc_alphabet | Crockford => crock_alphabet end) \/
+  match a with Rfc4648 => c = 61%N | Crockford => In (to_upper c) [73; 76; 79]%N end.
+
+Theorem C18_b32_invalid : forall a data c,
+  In c data -> ~ b32_valid_char a c -> b32_decode a data = None.
+Proof. exact b32_invalid. Qed.
+Check C18_b32_invalid : forall a data c,
+  In c data -> ~ b32_valid_char a c -> b32_decode a data = None.
+
+Theorem C18_b64_invalid : forall data c,
+  In c data -> ~ In c b64_alphabet -> c <> 61%N -> b64_decode data = None.
+Proof. exact b64_invalid. Qed.
+Check C18_b64_invalid : forall data c,
+  In c data -> ~ In c b64_alphabet -> c <> 61%N -> b64_decode data = None.
+
+Theorem C18_z85_invalid : forall data c,
+  In c data -> ~ In c z85_letters -> z85_decode data = None.
+Proof. exact z85_invalid. Qed.
+Check C18_z85_invalid : forall data c,
+  In c data -> ~ In c z85_letters -> z85_decode data = None.
+
+(* ---------- the decode words ---------- *)
+(* [new] (newest first) is put on top of the reverse log, if the machine is recording *)
+Definition with_log (new : list rstep) (s : state) : state :=
+  match rlog s with Some l => set_rlog s (Some (new ++ l)%list) | None => s end.
+
+(* apart from the reverse log, [set_ds (with_log l s) v] is [s] with the data stack [v] *)
+Theorem C18_frame : forall l s v,
+  erase_log (set_ds (with_log l s) v) = set_ds (erase_log s) v /\
+  rlog (set_ds (with_log l s) v) = match rlog s with Some old => Some (l ++ old)%list | None => None end.
+Proof. exact result_frame. Qed.
+Check C18_frame : forall l s v,
+  erase_log (set_ds (with_log l s) v) = set_ds (erase_log s) v /\
+  rlog (set_ds (with_log l s) v) = match rlog s with Some old => Some (l ++ old)%list | None => None end.
+
+(* the cell a decode word leaves for the popped cell [c] *)
+Definition decoded (dec : list N -> option (list N)) (c : cell) : cell :=
+  match value c with
+  | CStr t => match dec (bytes_of_string t) with Some b => CBits (from_bytes b) | None => CNil end
+  | _ => CNil
+  end.
+
+(* the only error a decode word can return is the data-stack limit of its final push *)
+Theorem C18_decode_errors : forall dec s k p s', w_decode dec s = RErr k p s' ->
+  k = ELimit /\ p = None /\ limit_reached (stack_limit s') (length (ds s')) = true.
+Proof. exact w_decode_errors. Qed.
+Check C18_decode_errors : forall dec s k p s', w_decode dec s = RErr k p s' ->
+  k = ELimit /\ p = None /\ limit_reached (stack_limit s') (length (ds s')) = true.
+
+Theorem C18_decode_no_panic : forall dec s, w_decode dec s <> RPanic /\ w_decode dec s <> RUnsup.
+Proof. exact w_decode_no_panic. Qed.
+Check C18_decode_no_panic : forall dec s, w_decode dec s <> RPanic /\ w_decode dec s <> RUnsup.
+
+(* whatever is on the stack, the word is a push of nil or of a decoded bit-string *)
+Theorem C18_decode_total : forall dec s,
+  exists c s1, w_decode dec s = push_data c s1 /\
+               (c = CNil \/ exists t b, dec (bytes_of_string t) = Some b /\ c = CBits (from_bytes b)).
+Proof. exact w_decode_total. Qed.
+Check C18_decode_total : forall dec s,
+  exists c s1, w_decode dec s = push_data c s1 /\
+               (c = CNil \/ exists t b, dec (bytes_of_string t) = Some b /\ c = CBits (from_bytes b)).
+
+(* a cell above the context mark: it is replaced by [decoded dec c]; nothing else changes *)
+Theorem C18_decode_run : forall dec s c rest,
+  ds s = c :: rest -> ds_len (cx s) <= length rest ->
+  limit_reached (stack_limit s) (length rest) = false ->
+  w_decode dec s = ROk tt (set_ds (with_log [RPopData; RPushData c] s) (decoded dec c :: rest)).
+Proof. exact w_decode_run. Qed.
+Check C18_decode_run : forall dec s c rest,
+  ds s = c :: rest -> ds_len (cx s) <= length rest ->
+  limit_reached (stack_limit s) (length rest) = false ->
+  w_decode dec s = ROk tt (set_ds (with_log [RPopData; RPushData c] s) (decoded dec c :: rest)).
+
+(* no argument above the context mark: nil is pushed *)
+Theorem C18_decode_run_empty : forall dec s,
+  length (ds s) <= ds_len (cx s) ->
+  limit_reached (stack_limit s) (length (ds s)) = false ->
+  w_decode dec s = ROk tt (set_ds (with_log [RPopData] s) (CNil :: ds s)).
+Proof. exact w_decode_run_empty. Qed.
+Check C18_decode_run_empty : forall dec s,
+  length (ds s) <= ds_len (cx s) ->
+  limit_reached (stack_limit s) (length (ds s)) = false ->
+  w_decode dec s = ROk tt (set_ds (with_log [RPopData] s) (CNil :: ds s)).
+
+(* a string with a character outside the alphabet: the four decode words leave nil *)
+Theorem C18_decode_invalid_nil : forall c t ch,
+  value c = CStr t -> In ch (bytes_of_string t) ->
+  (~ b32_valid_char Rfc4648 ch -> decoded (b32_decode Rfc4648) c = CNil) /\
+  (~ b32_valid_char Crockford ch -> decoded (b32_decode Crockford) c = CNil) /\
+  (~ In ch b64_alphabet -> ch <> 61%N -> decoded b64_decode c = CNil) /\
+  (~ In ch z85_letters -> decoded z85_decode c = CNil).
+Proof. exact decoded_invalid. Qed.
+Check C18_decode_invalid_nil : forall c t ch,
+  value c = CStr t -> In ch (bytes_of_string t) ->
+  (~ b32_valid_char Rfc4648 ch -> decoded (b32_decode Rfc4648) c = CNil) /\
+  (~ b32_valid_char Crockford ch -> decoded (b32_decode Crockford) c = CNil) /\
+  (~ In ch b64_alphabet -> ch <> 61%N -> decoded b64_decode c = CNil) /\
+  (~ In ch z85_letters -> decoded z85_decode c = CNil).
+
+(* ---------- the encode words ---------- *)
+(* same outcome as >bitstr's argument conversion, plus the whole-bytes requirement; the
+   bytes are the 8-bit groups of the bit sequence (C04's bytestr), at any alignment *)
+Theorem C18_encode_domain : forall enc s,
+  match into_bitstr s with
+  | ROk bs s1 =>
+    if clen bs mod 8 =? 0
+    then exists bytes, bytestr bs = Some bytes /\
+                       (wf bs -> bytes = map bits_to_N (chunk8 (abs bs))) /\
+                       w_encode enc s = push_data (CStr (string_of_codes (enc bytes))) s1
+    else w_encode enc s = RErr EToBytestr None s1
+  | RErr k p s1 => w_encode enc s = RErr k p s1
+  | RPanic => w_encode enc s = RPanic
+  | RUnsup => w_encode enc s = RUnsup
+  end.
+Proof. exact w_encode_domain. Qed.
+Check C18_encode_domain : forall enc s,
+  match into_bitstr s with
+  | ROk bs s1 =>
+    if clen bs mod 8 =? 0
+    then exists bytes, bytestr bs = Some bytes /\
+                       (wf bs -> bytes = map bits_to_N (chunk8 (abs bs))) /\
+                       w_encode enc s = push_data (CStr (string_of_codes (enc bytes))) s1
+    else w_encode enc s = RErr EToBytestr None s1
+  | RErr k p s1 => w_encode enc s = RErr k p s1
+  | RPanic => w_encode enc s = RPanic
+  | RUnsup => w_encode enc s = RUnsup
+  end.
+
+Theorem C18_encode_accepts : forall enc s,
+  (exists s', w_encode enc s = ROk tt s') <->
+  (exists s', w_into_bitstr s = ROk tt s') /\
+  (exists bs s1, into_bitstr s = ROk bs s1 /\ clen bs mod 8 = 0).
+Proof. exact w_encode_accepts. Qed.
+Check C18_encode_accepts : forall enc s,
+  (exists s', w_encode enc s = ROk tt s') <->
+  (exists s', w_into_bitstr s = ROk tt s') /\
+  (exists bs s1, into_bitstr s = ROk bs s1 /\ clen bs mod 8 = 0).
+
+(* a bit-string operand with any offset into its buffer *)
+Theorem C18_encode_bits : forall enc s c rest b,
+  ds s = c :: rest -> ds_len (cx s) <= length rest ->
+  limit_reached (stack_limit s) (length rest) = false ->
+  value c = CBits b -> wf b -> clen b mod 8 = 0 ->
+  w_encode enc s
+  = ROk tt (set_ds (with_log [RPopData; RPushData c] s)
+                   (CStr (string_of_codes (enc (map bits_to_N (chunk8 (abs b))))) :: rest)).
+Proof. exact w_encode_bits. Qed.
+Check C18_encode_bits : forall enc s c rest b,
+  ds s = c :: rest -> ds_len (cx s) <= length rest ->
+  limit_reached (stack_limit s) (length rest) = false ->
+  value c = CBits b -> wf b -> clen b mod 8 = 0 ->
+  w_encode enc s
+  = ROk tt (set_ds (with_log [RPopData; RPushData c] s)
+                   (CStr (string_of_codes (enc (map bits_to_N (chunk8 (abs b))))) :: rest)).
+
+(* ---------- the words compose: encode then decode gives back the bits ---------- *)
+Definition codec_words : list ((list N -> list N) * (list N -> option (list N))) :=
+  [ (b32_encode Rfc4648, b32_decode Rfc4648); (b32_encode Crockford, b32_decode Crockford);
+    (b64_encode, b64_decode); (z85_encode, z85_decode) ].
+
+Theorem C18_word_round : forall enc dec s c rest bs,
+  In (enc, dec) codec_words ->
+  ds s = c :: rest -> ds_len (cx s) <= length rest ->
+  limit_reached (stack_limit s) (length rest) = false ->
+  (forall s0, bitstr_concat c s0 = ROk bs s0) -> wf bs -> clen bs mod 8 = 0 ->
+  let bytes := map bits_to_N (chunk8 (abs bs)) in
+  (w_encode enc ;; w_decode dec) s
+  = ROk tt (set_ds (with_log [RPopData; RPushData (CStr (string_of_codes (enc bytes))); RPopData; RPushData c] s)
+                   (CBits (from_bytes bytes) :: rest))
+  /\ wf (from_bytes bytes) /\ abs (from_bytes bytes) = abs bs.
+Proof. exact word_round_table. Qed.
+Check C18_word_round : forall enc dec s c rest bs,
+  In (enc, dec) codec_words ->
+  ds s = c :: rest -> ds_len (cx s) <= length rest ->
+  limit_reached (stack_limit s) (length rest) = false ->
+  (forall s0, bitstr_concat c s0 = ROk bs s0) -> wf bs -> clen bs mod 8 = 0 ->
+  let bytes := map bits_to_N (chunk8 (abs bs)) in
+  (w_encode enc ;; w_decode dec) s
+  = ROk tt (set_ds (with_log [RPopData; RPushData (CStr (string_of_codes (enc bytes))); RPopData; RPushData c] s)
+                   (CBits (from_bytes bytes) :: rest))
+  /\ wf (from_bytes bytes) /\ abs (from_bytes bytes) = abs bs.
+
+(* >bitstr keeps well-formedness: every bit-string inside the operand (at any depth of
+   vectors, under tags) well-formed => so is the concatenation; strings and byte values
+   always are.  With it the round trip needs no assumption on the converted value. *)
+Fixpoint cell_bits_wf (c : cell) : Prop :=
+  match c with
+  | CBits b => wf b
+  | CVec l => (fix all (l : list cell) : Prop :=
+                 match l with [] => True | x :: r => cell_bits_wf x /\ all r end) l
+  | CTag _ v => cell_bits_wf v
+  | _ => True
+  end.
+
+Theorem C18_into_bitstr_wf : forall c s bs s',
+  cell_bits_wf c -> bitstr_concat c s = ROk bs s' -> wf bs /\ s' = s.
+Proof. exact bitstr_concat_wf. Qed.
+Check C18_into_bitstr_wf : forall c s bs s',
+  cell_bits_wf c -> bitstr_concat c s = ROk bs s' -> wf bs /\ s' = s.
+
+Theorem C18_word_round_cell : forall enc dec s c rest bs,
+  In (enc, dec) codec_words ->
+  ds s = c :: rest -> ds_len (cx s) <= length rest ->
+  limit_reached (stack_limit s) (length rest) = false ->
+  cell_bits_wf c -> bitstr_concat c s = ROk bs s -> clen bs mod 8 = 0 ->
+  let bytes := map bits_to_N (chunk8 (abs bs)) in
+  (w_encode enc ;; w_decode dec) s
+  = ROk tt (set_ds (with_log [RPopData; RPushData (CStr (string_of_codes (enc bytes))); RPopData; RPushData c] s)
+                   (CBits (from_bytes bytes) :: rest))
+  /\ wf (from_bytes bytes) /\ abs (from_bytes bytes) = abs bs.
+Proof. exact word_round_cell_table. Qed.
+Check C18_word_round_cell : forall enc dec s c rest bs,
+  In (enc, dec) codec_words ->
+  ds s = c :: rest -> ds_len (cx s) <= length rest ->
+  limit_reached (stack_limit s) (length rest) = false ->
+  cell_bits_wf c -> bitstr_concat c s = ROk bs s -> clen bs mod 8 = 0 ->
+  let bytes := map bits_to_N (chunk8 (abs bs)) in
+  (w_encode enc ;; w_decode dec) s
+  = ROk tt (set_ds (with_log [RPopData; RPushData (CStr (string_of_codes (enc bytes))); RPopData; RPushData c] s)
+                   (CBits (from_bytes bytes) :: rest))
+  /\ wf (from_bytes bytes) /\ abs (from_bytes bytes) = abs bs.
+
+(* the words of the table are these programs *)
+Example C18_table : forall fo,
+  table_find (word_table fo) "base32" = Some (w_encode (b32_encode Rfc4648)) /\
+  table_find (word_table fo) "base32>" = Some (w_decode (b32_decode Rfc4648)) /\
+  table_find (word_table fo) "base32hex" = Some (w_encode (b32_encode Crockford)) /\
+  table_find (word_table fo) "base32hex>" = Some (w_decode (b32_decode Crockford)) /\
+  table_find (word_table fo) "base64" = Some (w_encode b64_encode) /\
+  table_find (word_table fo) "base64>" = Some (w_decode b64_decode) /\
+  table_find (word_table fo) "zero85" = Some (w_encode z85_encode) /\
+  table_find (word_table fo) "zero85>" = Some (w_decode z85_decode).
+Proof. intro fo. repeat split. Qed.
+
+(* the hypotheses are satisfiable: an unaligned 16-bit slice (bits 4..20 of ab cd ef, i.e.
+   the bytes bc de) goes through base32 and comes back, and invalid text gives None *)
+Example C18_nonvacuous :
+  wf (mkcbs 4 20 [171; 205; 239]%N) /\
+  map bits_to_N (chunk8 (abs (mkcbs 4 20 [171; 205; 239]%N))) = [188; 222]%N /\
+  b32_encode Rfc4648 [188; 222]%N = [88; 84; 80; 65; 61; 61; 61; 61]%N /\
+  b32_decode Rfc4648 [88; 84; 80; 65; 61; 61; 61; 61]%N = Some [188; 222]%N /\
+  b64_decode (b64_encode [1; 2; 3; 4]%N) = Some [1; 2; 3; 4]%N /\
+  z85_decode (z85_encode [1; 2; 3; 4; 5]%N) = Some [1; 2; 3; 4; 5]%N /\
+  b32_decode Rfc4648 [88; 84; 49; 65]%N = None /\ b64_decode [65; 42; 65; 65]%N = None /\
+  z85_decode [48; 48; 34; 48; 48]%N = None.
+Proof.
+  split; [repeat split; try (cbn; lia); repeat constructor|].
+  vm_compute. repeat split.
+Qed.
